@@ -78,7 +78,7 @@ func (core *JApiCore) addRulesToUserTypes() *jerr.JApiError {
 	err := core.userTypes.Each(func(name string, ut jschemaLib.Schema) error {
 		for n, r := range core.rules {
 			if err := ut.AddRule(n, r); err != nil {
-				return jschemaToJAPIError(err, dd.GetValue(name))
+				return core.jschemaToJAPIError(err, dd.GetValue(name))
 			}
 		}
 		return nil
@@ -114,7 +114,7 @@ func (core *JApiCore) compileUserTypeWithAllDependencies(name string) error {
 
 	tt, err := fetchUsedUserTypes(currUT, core.userTypes)
 	if err != nil {
-		return jschemaToJAPIError(err, dd.GetValue(name))
+		return core.jschemaToJAPIError(err, dd.GetValue(name))
 	}
 
 	for _, n := range tt {
@@ -129,19 +129,19 @@ func (core *JApiCore) compileUserTypeWithAllDependencies(name string) error {
 			}
 
 			if err := core.checkUserTypeDuringBuild(n, ut); err != nil {
-				return jschemaToJAPIError(err, dd.GetValue(n))
+				return core.jschemaToJAPIError(err, dd.GetValue(n))
 			}
 		}
 
 		if err := safeAddType(currUT, n, ut); err != nil {
-			return jschemaToJAPIError(err, dd.GetValue(n))
+			return core.jschemaToJAPIError(err, dd.GetValue(n))
 		}
 	}
 
 	// Check user type is correct.
 	// We should do it here 'cause it will simplify further processing.
 	if err := currUT.Check(); err != nil {
-		return jschemaToJAPIError(err, dd.GetValue(name))
+		return core.jschemaToJAPIError(err, dd.GetValue(name))
 	}
 
 	core.userTypes.Set(name, currUT)
@@ -186,9 +186,18 @@ func (core *JApiCore) checkUserType(name string) *jerr.JApiError {
 	return d.BodyErrorIndex(e.Message(), e.Position())
 }
 
-func jschemaToJAPIError(err error, d *directive.Directive) *jerr.JApiError {
+func (core *JApiCore) jschemaToJAPIError(err error, d *directive.Directive) *jerr.JApiError {
 	var e kit.Error
 	if errors.As(err, &e) {
+		// The position is relative to the body of the type in which the error is.
+		if ut := e.IncorrectUserType(); ut != "" && ut != d.NamedParameter("Name") {
+			if other := core.catalog.GetRawUserTypes().GetValue(ut); other != nil {
+				return other.BodyErrorIndex(e.Message(), e.Position())
+			}
+			// A type without a directive of its own (e.g. an "or" of types): there
+			// is no body the position could refer to.
+			return d.KeywordError(e.Message())
+		}
 		return d.BodyErrorIndex(e.Message(), e.Position())
 	}
 	return d.KeywordError(err.Error())
